@@ -14,9 +14,7 @@ AsSet(s) == {s[x] : x \in 1..Len(s)}
 Distinct(s) == \A x, y \in 1..Len(s) : x # y => s[x].name # s[y].name
 AsMap(s) == [k \in {s[x].name : x \in 1..Len(s)} |-> s[CHOOSE x \in 1..Len(s) : s[x].name = k].vals]
 
-\* Each Fails_* operator returns the set of clauses the line violates ({} = accepted).  A clause
-\* name carries ":<known defect>" when the observation is exactly what that defect of the
-\* unchanged tree produces (classification only; any other wrong answer keeps the bare name).
+\* Each Fails_* operator returns the set of clauses the line violates ({} = accepted).
 If(c, name) == IF c THEN {} ELSE {name}
 
 HdrExpected(r) ==
@@ -27,17 +25,10 @@ HdrExpected(r) ==
     [] r.op = "md2h"  -> MDToHdr(AsMap(r.h))
     [] r.op = "map2h" -> MapToHdr(AsMap(r.h))
     [] r.op = "rt"    -> Entries(HdrToMD(SomeSeq(MDToHdr(HdrToMD(r.h)))))     \* list -> MD -> list -> MD
-HdrKnown(r) ==
-  CASE r.op \in {"h2md", "rt"} /\ AsSet(r.obs) = Entries(Known_LastWins(r.h)) -> ":last-wins"
-    [] r.op = "out" /\ AsSet(r.obs) = Entries(Known_OutgoingNoDecode(AsMap(r.pre), r.h)) -> ":bin-not-decoded"
-    [] OTHER -> ""
 Fails_hdr(r) ==
   If(Distinct(r.obs), "distinct")
-  \cup If(AsSet(r.obs) = HdrExpected(r), "result" \o HdrKnown(r))
+  \cup If(AsSet(r.obs) = HdrExpected(r), "result")
   \cup If(r.op = "rt" => HdrExpected(r) = Entries(HdrToMD(r.h)), "law")          \* the spec's own round-trip law
-  \cup If(r.op = "md2h" => AsSet(r.after) = AsSet(r.h),                          \* source not modified
-          "source" \o (IF r.op = "md2h" /\ AsSet(r.after) = Entries(Known_SourceEncodedInPlace(AsMap(r.h))) \cup {e \in AsSet(r.h) : e.vals = <<>>}
-                        THEN ":encoded-in-place" ELSE ""))
 
 Fails_err(r) ==
   If(r.c = ToConnect(r.e), "c")
@@ -60,8 +51,7 @@ Shape(where) == CASE where = "none"   -> [t |-> "M", ents |-> <<Ent("f", Leaf)>>
 Fails_codec(r) ==
   If(r.wrote = Marshal(r.codec, Shape("none")).fmt, "wrote")          \* Marshal writes the codec's own format
   \cup If(r.stable = Marshal(r.codec, Shape("none")).fmt, "stable")   \* MarshalStable too
-  \cup If(r.verdict = Unmarshal(r.codec, [fmt |-> r.codec, body |-> Shape(r.where)]).r,
-          "verdict" \o (IF r.where = "nested" /\ ~Known_TopLevelOnly(Shape(r.where)) /\ r.codec = "proto" THEN ":top-level-only" ELSE ""))
+  \cup If(r.verdict = Unmarshal(r.codec, [fmt |-> r.codec, body |-> Shape(r.where)]).r, "verdict")
   \cup If((r.where = "none" /\ r.verdict = "ok") => r.same, "same")   \* ... and the decoded message is equal
 
 Fails(r) == CASE r.t = "hdr"   -> Fails_hdr(r)
